@@ -22,7 +22,7 @@ case "${1:-}" in
     patch="$(realpath "$2")"; shift 2
     git -C $LAB/repo checkout -q -- . && git -C $LAB/repo apply "$patch" || { echo "patch does not apply"; exit 2; }
     for c in "$@"; do
-      out=$(cd $LAB/verif && VERIF_TARGET_DIR=$LAB/verif/harness/target ./check $c quick 2>&1)
+      out=$(cd $LAB/verif && WAC_REPO=$LAB/repo VERIF_TARGET_DIR=$LAB/verif/harness/target ./check $c quick 2>&1)
       code=$?
       echo "== $c exit=$code"; echo "$out" | grep -E "fingerprint|MACHINERY|$c quick" | head -8 | cut -c1-220
     done
